@@ -68,11 +68,13 @@ def cases_for(rng: random.Random, tier: str) -> List[Tuple[str, str, bytes]]:
     return out
 
 
-def shipped_run(v: common.Verdict, rng: random.Random, tier: str) -> Dict:
+def shipped_run(v: common.Verdict, rng: random.Random, tier: str, report: str = 'window') -> Dict:
+    """report='window': C03 (hook, cursor, sanitizer).  report='rewind': C02 — the driver's monitor control counts invocations that
+    failed locally under rewind_mode::required with the cursor moved; only those are reported."""
     src = common.VERIF / 'harness' / 'leaf_c03.cpp'
-    exe = common.BUILD / 'c03' / 'leaf_c03'
+    exe = common.BUILD / ('c03' if report == 'window' else 'c02_shipped') / 'leaf_c03'
     t0 = time.time()
-    ok, err = leaf.compile_cpp(src, exe, san='asan+ubsan', extra=['-I', str(common.REPO / 'src' / 'example' / 'pegtl')])
+    ok, err = leaf.compile_cpp(src, exe, san=('asan+ubsan' if report == 'window' else 'none'), extra=['-I', str(common.REPO / 'src' / 'example' / 'pegtl')])
     if not ok:
         v.broke("correspondence: harness/leaf_c03.cpp no longer compiles against the headers: " + err[-2500:])
         return {'compiled': False}
@@ -91,6 +93,12 @@ def shipped_run(v: common.Verdict, rng: random.Random, tier: str) -> Dict:
         for ln in lines:
             if ln.startswith('CASE '):
                 cur = ln[5:]
+            elif ln.startswith('REWIND '):
+                stats['rewind_violations'] = stats.get('rewind_violations', 0) + 1
+                if report == 'rewind' and len(v.violations) < 5:
+                    f = ln.split(' ', 2)
+                    v.failing_input({'oracle': 'rewind-monitor', 'what': f"{f[1]} invocation(s) failed locally under rewind_mode::required with the cursor moved; first: {f[2]}",
+                                     'case': cur, 'observed': ln})
             elif cur is not None:
                 f = ln.split()
                 done += 1
@@ -101,17 +109,17 @@ def shipped_run(v: common.Verdict, rng: random.Random, tier: str) -> Dict:
                 consumed, size, oob = int(f[-3]), int(f[-2]), int(f[-1])
                 if oob != 0:
                     stats['oob_hits'] += 1
-                    if len(v.violations) < 5:
+                    if report == 'window' and len(v.violations) < 5:
                         v.failing_input({'oracle': 'hook', 'what': f"{oob} read(s)/advance(s) outside [current, end) reported by the TAO_PEGTL_VERIF hook",
                                          'case': cur, 'observed': ln})
-                if consumed > size and len(v.violations) < 5:
+                if report == 'window' and consumed > size and len(v.violations) < 5:
                     v.failing_input({'oracle': 'cursor', 'what': f"cursor advanced to {consumed} past the end {size}", 'case': cur, 'observed': ln})
                 cur = None
         if p.returncode == 0:
             break
         # sanitizer abort: the announced case without a result line
         stats['aborts'] += 1
-        if cur is not None and len(v.violations) < 5:
+        if cur is not None and report == 'window' and len(v.violations) < 5:
             v.failing_input({'oracle': 'sanitizer', 'what': "AddressSanitizer/UBSan abort while parsing this input with a shipped grammar",
                              'case': cur, 'report': p.stderr[:3000]})
         elif cur is None:
@@ -152,7 +160,7 @@ def run(tier: str) -> int:
                                 inputs=profiles.inputs_exhaustive(4, 6, cap_q=150, cap_t=900), per_tu=2,
                                 configs=profiles.amr_configs(ams=((1, 'r'), (1, 'o')), eols=('lf_crlf', 'crlf'))),
         bytes_profile(),
-        profiles.atoms_profile('atoms', ORACLES, cap_q=120, cap_t=1500, per_tu=3),
+        profiles.atoms_profile('atoms', ORACLES, cap_q=120, cap_t=500, per_tu=3),
     ]
 
     def extra(v: common.Verdict, cov: Dict, rng: random.Random):
